@@ -770,3 +770,375 @@ Qed.
    program is RemoveAll, no schedule leaks (hence the theorems above hold unconditionally) *)
 Definition cc_no_removeall (progs : list (list (option nat) * list op)) : Prop :=
   forall sp o, In sp progs -> In o (snd sp) -> match o with RemoveAll _ => False | _ => True end.
+
+(* ------------------------------------------------------------------ programs without RemoveAll never leak *)
+Definition cc_is_ra (a : cc_aid) : bool :=
+  match a with ARaUnregT | ARaUnreg | ARaScan | ARaDelete | ARaNext => true | _ => false end.
+Definition cc_instr_nora (i : cc_instr) : bool := match i with CcAct a => negb (cc_is_ra a) | _ => true end.
+Definition cc_op_nora (o : op) : bool := match o with RemoveAll _ => false | _ => true end.
+Definition cc_th_nora (th : cc_thread) : Prop :=
+  forallb cc_instr_nora (th_code th) = true /\ forallb cc_op_nora (th_prog th) = true.
+Definition cc_nora (c : cc_cfg) : Prop :=
+  forall t th, nth_error (cf_threads c) t = Some th -> cc_th_nora th.
+
+Lemma nora_touches l : forallb cc_instr_nora (cc_touches l) = true.
+Proof. induction l; cbn; auto. Qed.
+
+Lemma nora_of_next st f : forallb cc_instr_nora (cc_of_next st f) = true.
+Proof.
+  unfold cc_of_next.
+  destruct st as [|[|st]]; repeat match goal with |- context [if ?c then _ else _] => destruct c end; reflexivity.
+Qed.
+
+Lemma cc_sem_nora a f s :
+  cc_is_ra a = false ->
+  match cc_sem a f s with CcCont _ _ code => forallb cc_instr_nora code = true | CcPanic _ => True end.
+Proof.
+  intros Ha. destruct a; try discriminate Ha; cbn [cc_sem];
+    repeat match goal with
+           | |- match (let '(_, _) := ?x in _) with _ => _ end => destruct x
+           | |- match (match ?x with _ => _ end) with _ => _ end => destruct x
+           | |- match (if ?x then _ else _) with _ => _ end => destruct x
+           end;
+    cbn [forallb cc_instr_nora cc_is_ra negb andb]; rewrite ?forallb_app, ?nora_touches, ?nora_of_next; auto.
+Qed.
+
+Lemma cc_begin_nora o slots : cc_op_nora o = true -> forallb cc_instr_nora (snd (cc_begin o slots)) = true.
+Proof.
+  destruct o; cbn; try discriminate; try reflexivity; intros _;
+    repeat match goal with |- context [match ?x with _ => _ end] => destruct x end; reflexivity.
+Qed.
+
+Lemma forallb_tl {A} (p : A -> bool) l : forallb p l = true -> forallb p (tl l) = true.
+Proof. destruct l; cbn; [auto|]. intros H. now apply andb_true_iff in H as [_ H]. Qed.
+
+Lemma cc_step_nora c t : cc_inv c -> cc_noleak c -> cc_nora c -> cc_noleak (cc_step c t) /\ cc_nora (cc_step c t).
+Proof.
+  intros [Hwf Hth] Hnl Hnr. unfold cc_step.
+  destruct (cc_enabled c t); cbn [negb]; [|auto].
+  destruct (nth_error (cf_threads c) t) as [th|] eqn:Hn; [|auto].
+  pose proof (Hth t th Hn) as Hwt. pose proof (Hnl t th Hn) as Hl. pose proof (Hnr t th Hn) as [Hc Hp].
+  assert (Hgen : forall c' new, cf_threads c' = list_set t new (cf_threads c) ->
+                   th_leaked new = false -> cc_th_nora new -> cc_noleak c' /\ cc_nora c').
+  { intros c' new Hc' Hl' Hn'. split.
+    - intros t' x Hx. rewrite Hc' in Hx. revert t' x Hx.
+      apply (threads_set (fun x => th_leaked x = false) _ t th new Hn); [exact Hnl|exact Hl'].
+    - intros t' x Hx. rewrite Hc' in Hx. revert t' x Hx.
+      apply (threads_set cc_th_nora _ t th new Hn); [exact Hnr|exact Hn']. }
+  assert (Hrel : forall th1 l, th_leaked th1 = false -> th_code th1 = tl (th_code th) \/ th_code th1 = th_code th ->
+                               th_prog th1 = th_prog th ->
+                               cc_noleak (cc_release c t th1 l) /\ cc_nora (cc_release c t th1 l)).
+  { intros th1 l Hl1 Hc1 Hp1.
+    assert (Hnora1 : forallb cc_instr_nora (th_code th1) = true).
+    { destruct Hc1 as [->| ->]; [now apply forallb_tl|exact Hc]. }
+    unfold cc_release.
+    destruct l; repeat match goal with |- context [match ?x with _ => _ end] => destruct x end;
+      eapply Hgen; try reflexivity; cbn; try assumption; split; cbn; congruence. }
+  destruct (cc_next_of th) eqn:Hnx; auto.
+  - destruct (th_prog th) as [|o rest] eqn:Hpr; [auto|]. cbn in Hp. apply andb_true_iff in Hp as [Ho Hrest].
+    destruct (cc_begin o (th_slots th)) as [f code] eqn:Hb.
+    eapply Hgen; [reflexivity|exact Hl|]. split; cbn; [|exact Hrest].
+    pose proof (cc_begin_nora o (th_slots th) Ho) as H. now rewrite Hb in H.
+  - apply next_instr in Hnx as (Hact & r & Hcode). destruct i as [l x|l|l|a].
+    + unfold cc_acquire. destruct l; eapply Hgen; try reflexivity; cbn; try assumption;
+        (split; cbn; [now apply forallb_tl|exact Hp]).
+    + apply Hrel; cbn; auto.
+    + eapply Hgen; [reflexivity|exact Hl|]. split; cbn; [now apply forallb_tl|exact Hp].
+    + pose proof (wt_active th Hwt Hact) as Hok. rewrite Hcode in Hok, Hc. cbn [cc_ok] in Hok.
+      destruct r; [|discriminate]. apply ctx_eqb_eq in Hok.
+      cbn in Hc. rewrite andb_true_r in Hc. apply negb_true_iff in Hc.
+      pose proof (cc_sem_nora a (th_fr th) (cf_st c) Hc) as Hsn.
+      pose proof (cc_sem_ok a (th_fr th) (cf_st c)) as Hsem. unfold cc_okd_ctx in Hsem. rewrite Hok in Hsem. cbn [fst snd] in Hsem.
+      destruct (cc_sem a (th_fr th) (cf_st c)) as [s f code|s].
+      * eapply Hgen; [reflexivity|exact Hl|]. split; cbn; [|exact Hp]. rewrite Hcode. cbn. now rewrite app_nil_r.
+      * eapply Hgen; [reflexivity| |split; cbn; [reflexivity|exact Hp]]. cbn. rewrite Hl. cbn.
+        apply negb_false_iff. destruct Hsem as [Hk|Hk]; [|exact Hk]. destruct a; discriminate.
+  - apply next_finish in Hnx as (Hact & Hcode & Hd). eapply Hgen; [reflexivity|exact Hl|]. split; cbn; [reflexivity|exact Hp].
+Qed.
+
+Theorem cc_nora_run c sched :
+  cc_inv c -> cf_bad c = None -> cc_noleak c -> cc_nora c -> cc_noleak (run_sched_from c sched).
+Proof.
+  intros Hi Hb Hl Hn.
+  assert (H : cc_noleak (run_sched_from c sched) /\ cc_nora (run_sched_from c sched)).
+  { induction sched as [|t sched IH] using rev_ind; [auto|]. rewrite run_snoc. destruct IH as [IHl IHn].
+    apply cc_step_nora; [|exact IHl|exact IHn]. exact (proj1 (cc_inv_run c sched Hi Hb IHl)). }
+  exact (proj1 H).
+Qed.
+
+Definition cc_progs_nora (progs : list (list (option nat) * list op)) : bool :=
+  forallb (fun sp => forallb cc_op_nora (snd sp)) progs.
+
+Theorem conc_no_removeall_no_leak s progs sched :
+  cc_progs_nora progs = true -> cc_noleakb (cc_run_from s progs sched) = true.
+Proof.
+  intros Hp. apply cc_noleakb_iff. destruct (cc_inv_init s progs) as [Hi Hb]. apply cc_nora_run; auto.
+  - intros t th Hn. unfold cc_init_from in Hn. cbn in Hn. rewrite nth_error_map in Hn.
+    destruct (nth_error progs t); [|discriminate]. now inversion Hn.
+  - intros t th Hn. unfold cc_init_from in Hn. cbn in Hn. rewrite nth_error_map in Hn.
+    destruct (nth_error progs t) as [sp|] eqn:Hs; [|discriminate]. inversion Hn; subst. split; [reflexivity|]. cbn.
+    unfold cc_progs_nora in Hp. rewrite forallb_forall in Hp. apply Hp. now apply nth_error_In in Hs.
+Qed.
+
+(* ------------------------------------------------------------------ lockset, decided over the table *)
+Definition cc_name_unlocked_reader (a : cc_aid) : bool :=
+  match a with
+  | AHPre HkReadAt | AHPre HkWrite | AHPre HkWriteAt | AHPre HkSeek | AHPre HkTruncate => true
+  | _ => false
+  end.
+Definition cc_is_rename (a : cc_aid) : bool := match a with ARename => true | _ => false end.
+Definition cc_is_readdir_body (a : cc_aid) : bool :=
+  match a with AHBody HkReaddir | AHBody HkReaddirnames => true | _ => false end.
+Definition cc_is_fname (f : cc_field) : bool := match f with FName => true | _ => false end.
+
+(* the exceptions of today's table, as pairs (action, action, access, access) *)
+Definition cc_exc_errpath (a1 : cc_aid) (x : cc_access) (a2 : cc_aid) (y : cc_access) : bool :=
+  cc_is_fname (ac_field x) &&
+  ((cc_is_rename a1 && ac_write x && cc_name_unlocked_reader a2 && negb (ac_own y) && negb (ac_parent y)) ||
+   (cc_is_rename a2 && ac_write y && cc_name_unlocked_reader a1 && negb (ac_own x) && negb (ac_parent x))).
+Definition cc_exc_sort (a1 : cc_aid) (x : cc_access) (a2 : cc_aid) (y : cc_access) : bool :=
+  cc_is_fname (ac_field x) &&
+  ((cc_is_rename a1 && ac_write x && cc_is_readdir_body a2 && ac_parent y) ||
+   (cc_is_rename a2 && ac_write y && cc_is_readdir_body a1 && ac_parent x)).
+
+Definition cc_table_dec (ok : cc_aid -> cc_access -> cc_aid -> cc_access -> bool) : bool :=
+  forallb (fun a1 => forallb (fun a2 => forallb (fun x => forallb (fun y =>
+    negb (cc_conflict x y) || negb (ac_wt x && ac_wt y) || ok a1 x a2 y) (cc_acc a2)) (cc_acc a1)) cc_all_aids) cc_all_aids.
+
+Lemma cc_table_dec_spec ok : cc_table_dec ok = true ->
+  forall a1 a2 x y, In a1 cc_all_aids -> In a2 cc_all_aids -> In x (cc_acc a1) -> In y (cc_acc a2) ->
+    cc_conflict x y = true -> ac_wt x = true -> ac_wt y = true -> ok a1 x a2 y = true.
+Proof.
+  unfold cc_table_dec. intros H a1 a2 x y H1 H2 Hx Hy Hc Hwx Hwy.
+  rewrite forallb_forall in H. specialize (H a1 H1). rewrite forallb_forall in H. specialize (H a2 H2).
+  rewrite forallb_forall in H. specialize (H x Hx). rewrite forallb_forall in H. specialize (H y Hy).
+  rewrite Hc, Hwx, Hwy in H. exact H.
+Qed.
+
+Lemma conc_lockset_table :
+  cc_table_dec (fun a1 x a2 y => cc_protected a1 x a2 y || cc_exc_errpath a1 x a2 y || cc_exc_sort a1 x a2 y) = true.
+Proof. vm_compute. reflexivity. Qed.
+
+Lemma conc_lockset_hb_table :
+  cc_table_dec (fun a1 x a2 y => cc_protected_hb a1 x a2 y || cc_exc_errpath a1 x a2 y) = true.
+Proof. vm_compute. reflexivity. Qed.
+
+Lemma cc_all_aids_complete a : a <> AXList -> In a cc_all_aids.
+Proof. destruct a; try destruct k; intros H; try (now contradiction H); vm_compute; tauto. Qed.
+
+(* ------------------------------------------------------------------ quiescent consistency: transfer *)
+(* the tree part of the state: the path map and, per node, name / kind / child index *)
+Definition cc_node_tree (n : node) := (nname n, ndir n, nhasdir n, nkids n).
+Definition cc_tree_of (s : mst) := (mdata s, map cc_node_tree (mheap s)).
+
+Lemma tree_upd_node s r g :
+  (forall n, cc_node_tree (g n) = cc_node_tree n) -> cc_tree_of (upd_node s r g) = cc_tree_of s.
+Proof.
+  intros Hg. unfold upd_node, get_node. destruct (nth_error (mheap s) r) as [n|] eqn:Hn; [|reflexivity].
+  unfold cc_tree_of, set_node. cbn. f_equal. rewrite map_list_set, Hg. apply list_set_same.
+  now rewrite nth_error_map, Hn.
+Qed.
+
+Lemma tree_put_data s r d : cc_tree_of (put_data s r d) = cc_tree_of s.
+Proof. destruct d; [|reflexivity]. cbn. now apply tree_upd_node. Qed.
+
+Lemma tree_m_hop s i k :
+  (forall h nd, cc_tree_of (fst (k h nd)) = cc_tree_of s) -> cc_tree_of (fst (m_hop s i k)) = cc_tree_of s.
+Proof.
+  intros H. unfold m_hop. destruct (nth_error (mhandles s) i); [|reflexivity].
+  destruct (get_node s (href h)); [apply H|reflexivity].
+Qed.
+
+Lemma tree_m_readdir s i h n : cc_tree_of (fst (fst (m_readdir s i h n))) = cc_tree_of s.
+Proof.
+  unfold m_readdir. destruct (get_node s (href h)); [|reflexivity]. destruct (negb (ndir n0)); reflexivity.
+Qed.
+
+(* calls on handles never change the tree part *)
+Lemma tree_handle_op s o : op_handle_of o <> None -> cc_tree_of (fst (m_step_raw s o)) = cc_tree_of s.
+Proof.
+  destruct o; cbn [op_handle_of]; try congruence; intros _; cbn [m_step_raw]; apply tree_m_hop; intros hd nd.
+  - destruct (f_read (ndata nd) hd n). reflexivity.
+  - destruct (f_readat (ndata nd) hd n off). reflexivity.
+  - destruct (f_write (ndata nd) hd b) as [[d h'] r]. cbn. now rewrite tree_put_data.
+  - destruct (f_writeat (ndata nd) hd b off) as [[d h'] r]. cbn. now rewrite tree_put_data.
+  - destruct (f_write (ndata nd) hd b) as [[d h'] r]. cbn. now rewrite tree_put_data.
+  - destruct (f_seek (ndata nd) hd off whence). reflexivity.
+  - destruct (f_truncate (ndata nd) hd n) as [d r]. cbn. now rewrite tree_put_data.
+  - destruct (hclosed hd); [reflexivity|]. cbn. destruct (hro hd); [reflexivity|].
+    rewrite tree_upd_node; [reflexivity|intros; reflexivity].
+  - pose proof (tree_m_readdir s h hd n) as H. destruct (m_readdir s h hd n) as [[s1 infos] e]. cbn in H.
+    destruct e as [er|]; [destruct infos; [destruct (errk_eqb (ek er) KEOF)|]|]; exact H.
+  - pose proof (tree_m_readdir s h hd n) as H. destruct (m_readdir s h hd n) as [[s1 infos] e]. cbn in H.
+    destruct e as [er|]; [destruct infos; [destruct (errk_eqb (ek er) KEOF)|]|]; exact H.
+  - reflexivity.
+  - reflexivity.
+  - reflexivity.
+Qed.
+
+Definition cc_code_for (o : op) (code : list cc_instr) : bool :=
+  forallb (fun i => match i with CcAct a => cc_aid_for a o | _ => true end) code.
+
+Lemma code_for_touches o l : cc_code_for o (cc_touches l) = true.
+Proof. unfold cc_code_for. induction l; cbn; auto. Qed.
+
+Lemma handle_set o h : op_handle_of (op_set_handle o h) = match op_handle_of o with Some _ => Some h | None => None end.
+Proof. destruct o; reflexivity. Qed.
+
+(* the sections of a call stay within the call's method and keep its arguments *)
+Lemma cc_sem_for a f s :
+  cc_aid_for a (fr_op f) = true ->
+  match cc_sem a f s with
+  | CcCont _ f' code => fr_op f' = fr_op f /\ cc_code_for (fr_op f) code = true
+  | CcPanic _ => True
+  end.
+Proof.
+  unfold cc_code_for. intros Ha.
+  destruct a; destruct (fr_op f) eqn:Hop; try discriminate Ha; cbn [cc_sem]; rewrite ?Hop;
+    repeat match goal with
+           | |- match (let '(_, _) := ?x in _) with _ => _ end => destruct x
+           | |- match (match ?x with _ => _ end) with _ => _ end => destruct x
+           | |- match (if ?x then _ else _) with _ => _ end => destruct x
+           end;
+    try exact I; (split; [cbn; try rewrite Hop; reflexivity|]);
+    unfold cc_of_next, cc_ra_next; cbn [fr_op fr_set_res fr_set_ref fr_set_h fr_set_z fr_set_keys fr_set_created fr_created];
+    rewrite ?Hop;
+    repeat match goal with |- context [if ?c then _ else _] => destruct c end;
+    repeat match goal with |- context [match ?c with _ => _ end] => destruct c end;
+    rewrite ?forallb_app; fold (cc_code_for (fr_op f)); rewrite ?Hop;
+    cbn [forallb cc_aid_for andb op_handle_of]; try reflexivity; try exact (code_for_touches _ _);
+    try (rewrite andb_true_r; exact (code_for_touches _ _)).
+Qed.
+
+Lemma cc_begin_for o slots :
+  fr_op (fst (cc_begin o slots)) = o /\ cc_code_for o (snd (cc_begin o slots)) = true.
+Proof.
+  destruct o; cbn; auto;
+    repeat match goal with |- context [match ?x with _ => _ end] => destruct x end; cbn; auto.
+Qed.
+
+Section Transfer.
+  Variable P : mst -> Prop.
+  Variable A : op -> Prop.
+  Hypothesis Htree : forall s s', cc_tree_of s = cc_tree_of s' -> P s -> P s'.
+  Hypothesis Hnora : forall p, ~ A (RemoveAll p).
+  Hypothesis Hcreate : forall s p, A (Create p) -> P s -> P (fst (m_create s (normalize_path p))).
+  Hypothesis Hofcreate : forall s p fl pm, A (OpenFile p fl pm) -> P s -> P (fst (m_create s (normalize_path p))).
+  Hypothesis Hmkdir : forall s p pm, A (Mkdir p pm) \/ A (MkdirAll p pm) -> lookup s (normalize_path p) = None ->
+                                     P s -> P (cc_mkdir_body s (normalize_path p) (Z.land pm chmod_bits)).
+  Hypothesis Hremove : forall s p, A (Remove p) -> P s -> P (fst (m_remove s (normalize_path p))).
+  Hypothesis Hrename : forall s p q, A (Rename p q) -> P s -> P (fst (m_rename s (normalize_path p) q)).
+
+  Lemma P_tick s : P s -> P (cc_tick s).
+  Proof. apply Htree. reflexivity. Qed.
+
+  Lemma cc_sem_P a f s :
+    A (fr_op f) -> cc_aid_for a (fr_op f) = true -> P s ->
+    match cc_sem a f s with CcCont s' _ _ => P s' | CcPanic s' => P s' end.
+  Proof.
+    intros HA Ha HP. apply P_tick in HP.
+    destruct a; destruct (fr_op f) eqn:Hop; try discriminate Ha; cbn [cc_sem]; rewrite ?Hop; cbn [cc_path].
+    all: try exact HP.
+    all: try (exfalso; exact (Hnora _ HA)).
+    all: try solve [
+      repeat match goal with
+             | |- context [match nth_error ?l ?i with _ => _ end] => destruct (nth_error l i)
+             | |- context [match get_node ?s0 ?r with _ => _ end] => destruct (get_node s0 r)
+             | |- context [if cc_early ?a ?b ?c then _ else _] => destruct (cc_early a b c)
+             end; try exact HP;
+      match goal with
+      | |- context [m_step_raw ?s0 ?o0] =>
+        let Ht := fresh "Ht" in
+        pose proof (tree_handle_op s0 o0) as Ht;
+        destruct (m_step_raw s0 o0) as [s1 r]; cbn [fst] in Ht;
+        eapply Htree; [symmetry; apply Ht; rewrite handle_set; cbn; discriminate | exact HP]
+      end ].
+    all: try solve [
+      unfold m_open;
+      repeat match goal with
+             | |- context [match lookup ?s0 ?n with _ => _ end] => destruct (lookup s0 n)
+             | |- context [match get_node ?s0 ?r with _ => _ end] => destruct (get_node s0 r)
+             | |- context [match nth_error ?l ?i with _ => _ end] => destruct (nth_error l i)
+             | |- context [if ?c then _ else _] => destruct c
+             end; unfold alloc_handle; lazy beta iota;
+      first [ exact HP
+            | (eapply Htree; [|exact HP]; reflexivity)
+            | (eapply Htree; [|exact HP]; symmetry; now apply tree_upd_node) ] ].
+    - (* ACreate *) pose proof (Hcreate _ p HA HP) as H. destruct (m_create (cc_tick s) (normalize_path p)). exact H.
+    - (* AMkdirCreate *) destruct (lookup (cc_tick s) (normalize_path p)) eqn:Hl; [exact HP|].
+      apply Hmkdir; auto.
+    - destruct (lookup (cc_tick s) (normalize_path p)) eqn:Hl; [exact HP|]. apply Hmkdir; auto.
+    - (* AOfCreate *) pose proof (Hofcreate _ p flag perm HA HP) as H.
+      destruct (m_create (cc_tick s) (normalize_path p)) as [s1 r]. cbn in H.
+      destruct r; first [exact H | (eapply Htree; [|exact H]; reflexivity)].
+    - (* ARemove *) pose proof (Hremove _ p HA HP) as H.
+      destruct (m_remove (cc_tick s) (normalize_path p)) as [s1 r]. cbn in H. destruct r; first [exact H|exact HP].
+    - (* ARename *) pose proof (Hrename _ p q HA HP) as H.
+      destruct (m_rename (cc_tick s) (normalize_path p) q) as [s1 r]. cbn in H. destruct r; first [exact H|exact HP].
+  Qed.
+
+  Definition cc_th_for (th : cc_thread) : Prop :=
+    Forall A (th_prog th) /\
+    (th_active th = true -> A (fr_op (th_fr th)) /\ cc_code_for (fr_op (th_fr th)) (th_code th) = true).
+
+  Lemma cc_release_shape c t th1 l :
+    cf_st (cc_release c t th1 l) = cf_st c /\
+    exists x, cf_threads (cc_release c t th1 l) = list_set t x (cf_threads c) /\
+              th_prog x = th_prog th1 /\ th_active x = th_active th1 /\ th_fr x = th_fr th1 /\ th_code x = th_code th1.
+  Proof.
+    unfold cc_release.
+    destruct l; repeat match goal with |- context [match ?x with _ => _ end] => destruct x end;
+      (split; [reflexivity|]); eexists; (split; [reflexivity|]); cbn; auto.
+  Qed.
+
+  Lemma cc_step_P c t :
+    P (cf_st c) -> (forall t' th, nth_error (cf_threads c) t' = Some th -> cc_th_for th) ->
+    P (cf_st (cc_step c t)) /\
+    (forall t' th, nth_error (cf_threads (cc_step c t)) t' = Some th -> cc_th_for th).
+  Proof.
+    intros HP Hall. unfold cc_step. destruct (cc_enabled c t); cbn [negb]; [|auto].
+    destruct (nth_error (cf_threads c) t) as [th|] eqn:Hn; [|auto].
+    pose proof (Hall t th Hn) as [Hprog Hcode].
+    assert (Hrel : forall th1 l, th_prog th1 = th_prog th -> th_active th1 = th_active th -> th_fr th1 = th_fr th ->
+                     (th_code th1 = tl (th_code th) \/ th_code th1 = th_code th) ->
+                     P (cf_st (cc_release c t th1 l)) /\
+                     (forall t' x, nth_error (cf_threads (cc_release c t th1 l)) t' = Some x -> cc_th_for x)).
+    { intros th1 l H1 H2 H3 H4. destruct (cc_release_shape c t th1 l) as (Hs & x & Hx & Hp & Ha & Hf & Hc).
+      rewrite Hs, Hx. split; [exact HP|]. eapply threads_set; eauto. split; [now rewrite Hp, H1|].
+      rewrite Ha, H2, Hf, H3, Hc. intros Hact. destruct (Hcode Hact) as [HA Hcf]. split; [exact HA|].
+      destruct H4 as [->| ->]; [now apply forallb_tl|exact Hcf]. }
+    destruct (cc_next_of th) eqn:Hnx; auto.
+    - apply next_start in Hnx as (Hact & o & rest & Hp). rewrite Hp in *. inversion Hprog as [|? ? HAo Hrest]; subst.
+      destruct (cc_begin o (th_slots th)) as [f code] eqn:Hb. cbn. split; [exact HP|].
+      eapply threads_set; eauto. split; cbn; [exact Hrest|]. intros _.
+      pose proof (cc_begin_for o (th_slots th)) as [H1 H2]. rewrite Hb in H1, H2. cbn in H1, H2. now rewrite H1.
+    - apply next_instr in Hnx as (Hact & r & Hc). destruct (Hcode Hact) as [HA Hcf]. destruct i as [l x|l|l|a].
+      + unfold cc_acquire. destruct l; cbn; (split; [exact HP|]); eapply threads_set; eauto;
+          (split; cbn; [exact Hprog|intros _; split; [exact HA|now apply forallb_tl]]).
+      + apply Hrel; cbn; auto.
+      + cbn. split; [exact HP|]. eapply threads_set; eauto. split; cbn; [exact Hprog|].
+        intros _. split; [exact HA|now apply forallb_tl].
+      + rewrite Hc in Hcf. cbn in Hcf. apply andb_true_iff in Hcf as [Hfa Hcr].
+        pose proof (cc_sem_P a (th_fr th) (cf_st c) HA Hfa HP) as HPs.
+        pose proof (cc_sem_for a (th_fr th) (cf_st c) Hfa) as Hfor.
+        destruct (cc_sem a (th_fr th) (cf_st c)) as [s f code|s]; cbn; (split; [exact HPs|]); eapply threads_set; eauto.
+        * destruct Hfor as [Hop Hcf']. split; cbn; [exact Hprog|]. intros _. rewrite Hop. split; [exact HA|].
+          unfold cc_code_for. rewrite forallb_app. rewrite Hc. cbn [tl]. unfold cc_code_for in Hcf'. now rewrite Hcf'.
+        * split; cbn; [exact Hprog|]. intros _. split; [exact HA|reflexivity].
+    - cbn. split; [exact HP|]. eapply threads_set; eauto. split; cbn; [exact Hprog|discriminate].
+  Qed.
+
+  Theorem conc_transfer s0 progs sched :
+    (forall sp o, In sp progs -> In o (snd sp) -> A o) -> P s0 -> P (cf_st (cc_run_from s0 progs sched)).
+  Proof.
+    intros HA HP0. unfold cc_run_from.
+    assert (H : P (cf_st (run_sched_from (cc_init_from s0 progs) sched)) /\
+                (forall t' th, nth_error (cf_threads (run_sched_from (cc_init_from s0 progs) sched)) t' = Some th -> cc_th_for th)).
+    { induction sched as [|t sched IH] using rev_ind.
+      - split; [exact HP0|]. intros t' th Hn. cbn in Hn. rewrite nth_error_map in Hn.
+        destruct (nth_error progs t') as [sp|] eqn:Hs; [|discriminate]. inversion Hn; subst. split; cbn; [|discriminate].
+        apply Forall_forall. intros o Ho. apply (HA sp o); [now apply nth_error_In in Hs|exact Ho].
+      - rewrite run_snoc. destruct IH as [IH1 IH2]. now apply cc_step_P. }
+    exact (proj1 H).
+  Qed.
+End Transfer.
